@@ -8,7 +8,11 @@ import (
 
 func BuildMethodParameters(parameters parser.IFormalParametersContext) []core_domain.CodeProperty {
 	var methodParams []core_domain.CodeProperty = nil
-	parameterList := parameters.GetChild(1).(*parser.FormalParameterListContext)
+	// `void m(V this)` has a receiver parameter where the parameter list would be
+	parameterList, ok := parameters.GetChild(1).(*parser.FormalParameterListContext)
+	if !ok {
+		return methodParams
+	}
 	formalParameter := parameterList.AllFormalParameter()
 	for _, param := range formalParameter {
 		paramContext := param.(*parser.FormalParameterContext)
